@@ -6,7 +6,7 @@ use crate::metadata::TimeRange;
 use crate::{Error, Result, StorageConfig};
 
 use arrow_array::RecordBatch;
-use arrow_schema::SchemaRef;
+use arrow_schema::{Schema, SchemaRef};
 use datafusion::common::DFSchemaRef;
 use datafusion::datasource::empty::EmptyTable;
 use datafusion::datasource::file_format::parquet::ParquetFormat;
@@ -264,13 +264,32 @@ impl QueryEngine {
             .with_file_extension(".parquet")
             .with_collect_stat(true);
 
+        // Chunks flushed before and after a schema change carry different label columns, so
+        // the table's schema is the union over all selected chunks (a row is NULL in a column
+        // its chunk does not carry), not the schema of whichever chunk sorts first.
+        let state = self.ctx.state();
+        let inferred = futures::future::try_join_all(
+            table_urls
+                .iter()
+                .map(|url| listing_options.infer_schema(&state, url)),
+        )
+        .await
+        .map_err(|e| Error::Internal(format!("Failed to infer schema for metrics table: {}", e)))?;
+        let mut schemas: Vec<Schema> = inferred.iter().map(|s| s.as_ref().clone()).collect();
+        // Columns this node has already seen stay known, so a statement that was planned
+        // against them keeps planning when the selected chunks happen not to carry them.
+        if !self.metrics_table_is_placeholder() {
+            schemas.push(self.metrics_table_schema().await.as_ref().clone());
+        }
+        let schema = match Schema::try_merge(schemas) {
+            Ok(merged) => Arc::new(merged),
+            // same-named columns of different types: the first chunk decides, as before
+            Err(_) => inferred[0].clone(),
+        };
+
         let config = ListingTableConfig::new_with_multi_paths(table_urls)
             .with_listing_options(listing_options)
-            .infer_schema(&self.ctx.state())
-            .await
-            .map_err(|e| {
-                Error::Internal(format!("Failed to infer schema for metrics table: {}", e))
-            })?;
+            .with_schema(schema);
 
         let table = ListingTable::try_new(config)?;
 
